@@ -200,6 +200,7 @@ func (f c19LenFact) String() string {
 type c19Len struct {
 	c            *Ctx
 	n            *c19Nil
+	bind         map[*ssa.Parameter]int64 // constants bound to the parameters of the callees being summarised
 	fieldStores  map[*types.Var][]*ssa.Store
 	fieldEscapes map[*types.Var]bool
 	retM         map[*ssa.Function]*c19LenFact
@@ -335,6 +336,12 @@ func (l *c19Len) testFacts(v ssa.Value, at ssa.Instruction) c19LenFact {
 		}
 		taken := d0 != neg // truth value of the comparison on the dominating edge
 		why := "test of its length at " + l.c.pos(posOf(ifi))
+		if par, ok := k.(*ssa.Parameter); ok {
+			if kc, bound := l.bind[par]; bound {
+				k = ssa.NewConst(constant.MakeInt64(kc), par.Type())
+				why += fmt.Sprintf(" (parameter %s = %d at this call)", par.Name(), kc)
+			}
+		}
 		out = c19FactJoin(out, c19CmpFact(op, k, taken, why))
 	}
 	return out
@@ -540,6 +547,78 @@ func (l *c19Len) fieldFact(fa *ssa.FieldAddr, depth int, seen map[ssa.Value]bool
 	return out
 }
 
+// nilReturnExcluded: the return rv of callee f, which hands back a nil slice, cannot be the one
+// the call took when control reaches at.
+func (l *c19Len) nilReturnExcluded(call *ssa.Call, f *ssa.Function, rv c19RetVariant, at ssa.Instruction) bool {
+	rr := rv.RR
+	if eidx := errResultIndex(f.Signature); eidx >= 0 && eidx < len(rr) && l.n.nonNilErr(rr[eidx], rv.At.block(), 0) {
+		if c19AcceptDominates(errVerdict(call), c19AtInstr(at)) {
+			return true
+		}
+	}
+	for k, v := range rr {
+		cv, ok := v.(*ssa.Const)
+		if !ok || cv.Value == nil {
+			continue
+		}
+		switch cv.Value.Kind() {
+		case constant.Int, constant.Bool, constant.String:
+		default:
+			continue
+		}
+		for _, e := range extractsOf(call, k) {
+			if c19ExcludesConst(e, cv.Value, at) {
+				return true
+			}
+		}
+	}
+	return false
+}
+
+// c19ExcludesConst: on every path to at, e is known to differ from the constant cv: at is
+// dominated by the false side of a test e == cv, or by the true side of e == c2 with c2 != cv
+// (switch statements over a status enum compile to such chains).
+func c19ExcludesConst(e ssa.Value, cv constant.Value, at ssa.Instruction) bool {
+	if e.Referrers() == nil {
+		return false
+	}
+	for _, r := range *e.Referrers() {
+		bo, ok := r.(*ssa.BinOp)
+		if !ok || (bo.Op != token.EQL && bo.Op != token.NEQ) {
+			continue
+		}
+		other := bo.Y
+		if bo.Y == e {
+			other = bo.X
+		}
+		oc, ok := other.(*ssa.Const)
+		if !ok || oc.Value == nil || oc.Value.Kind() != cv.Kind() {
+			continue
+		}
+		same := constant.Compare(oc.Value, token.EQL, cv)
+		if bo.Referrers() == nil {
+			continue
+		}
+		for _, u := range *bo.Referrers() {
+			ifi, ok := u.(*ssa.If)
+			if !ok || len(ifi.Block().Succs) != 2 {
+				continue
+			}
+			b := ifi.Block()
+			for si, succ := range b.Succs {
+				if !edgeDominates(edge{b, succ}, at.Block()) {
+					continue
+				}
+				eqHolds := (si == 0) == (bo.Op == token.EQL) // e == oc on this edge
+				if (eqHolds && !same) || (!eqHolds && same) {
+					return true
+				}
+			}
+		}
+	}
+	return false
+}
+
 // callFact: known-length results of library functions and of module functions.
 func (l *c19Len) callFact(call *ssa.Call, idx int, at ssa.Instruction, depth int, seen map[ssa.Value]bool) c19LenFact {
 	cc := call.Common()
@@ -587,24 +666,47 @@ func (l *c19Len) callFact(call *ssa.Call, idx int, at ssa.Instruction, depth int
 	if idx >= f.Signature.Results().Len() || !c19IsByteSlice(f.Signature.Results().At(idx).Type()) {
 		return c19LenFact{}
 	}
-	// the nil returns of the callee come with an error: the fact of its other returns holds at
-	// the call site only where that error has been tested nil
-	if errResultIndex(f.Signature) >= 0 && !c19AcceptDominates(errVerdict(call), c19AtInstr(at)) {
-		return c19LenFact{}
-	}
 	if l.busy[f] {
 		return c19LenFact{}
 	}
 	l.busy[f] = true
 	defer delete(l.busy, f)
-	out, first := c19LenFact{}, true
-	for _, r := range returnsOf(f) {
-		rr := retResults(r)
-		if idx >= len(rr) || isNilConst(rr[idx]) {
-			continue // nil comes with an error; the caller's error test is D4's concern
+	// length tests against a parameter of the callee are read with the constant this call passes
+	saved := l.bind
+	l.bind = map[*ssa.Parameter]int64{}
+	for k, v := range saved {
+		l.bind[k] = v
+	}
+	for i, p := range f.Params {
+		if i < len(cc.Args) {
+			if k, ok := constInt(cc.Args[i]); ok {
+				l.bind[p] = k
+			} else if ap, ok := cc.Args[i].(*ssa.Parameter); ok {
+				if k, ok := saved[ap]; ok {
+					l.bind[p] = k
+				}
+			}
 		}
-		rf := l.fact(rr[idx], r, depth+1, map[ssa.Value]bool{})
-		// a make sized by a parameter: the caller chooses the size
+	}
+	defer func() { l.bind = saved }()
+	out, first := c19LenFact{}, true
+	for _, rv := range c19ReturnVariants(f) {
+		rr := rv.RR
+		if idx >= len(rr) {
+			continue
+		}
+		var rf c19LenFact
+		if isNilConst(rr[idx]) {
+			// a nil return is left out when the call site has ruled it out: its error was tested
+			// nil, or one of its other results (a status constant, a flag) is known to differ at
+			// the use; otherwise it counts as what it is, a slice of length 0
+			if l.nilReturnExcluded(call, f, rv, at) {
+				continue
+			}
+			rf = c19FactEq(0, "nil return at "+l.c.pos(posOf(rv.R)))
+		} else {
+			rf = l.fact(rr[idx], rv.At.instr(), depth+1, map[ssa.Value]bool{})
+		}
 		if first {
 			out, first = rf, false
 		} else {
